@@ -27,6 +27,7 @@ const headerVersion = 0x20000000
 // ProcessBlockHeader fills.
 type netCtx struct {
 	name    string
+	rec     tla.Value // the specification's network record (synthetic networks)
 	params  *chaincfg.Params
 	chain   *blockchain.BlockChain
 	db      database.DB
